@@ -19,9 +19,11 @@ const A: &[&str] = &[
     "DEFGATE A(%p) a b AS SEQUENCE:\n    CNOT b a\n    B(%p*%p) b\n    B(%p) a\n",
 ];
 const B: &[&str] = &["", "DEFGATE B a AS SEQUENCE:\n    H a\n", "DEFGATE B a AS SEQUENCE:\n    C a\n    DAGGER H a\n", "DEFGATE B(%q) a AS SEQUENCE:\n    RZ(%q*2) a\n"];
-const C: &[&str] = &["", "DEFGATE C a AS SEQUENCE:\n    A a\n", "DEFGATE C a AS SEQUENCE:\n    X a\n"];
-const D: &str = "DEFGATE D AS MATRIX:\n    1, 0\n    0, 1\n";
-const INV: &[&str] = &["A 0", "A(0.5) 0", "A 0 1", "A(0.5) 0 1", "B 1", "B(1.5) 1", "C 0", "DAGGER B 0", "B q", "H 0", "D 0", "MEASURE 0"];
+const C: &[&str] = &["", "DEFGATE C a AS SEQUENCE:\n    A a\n", "DEFGATE C a AS SEQUENCE:\n    X a\n", "DEFGATE C a AS SEQUENCE:\n    E a\n    X a\n    E a\n"];
+/// the matrix gate D, and the sequence gate E whose body is replaced by an EMPTY sequence through the API
+/// after parsing (the parser wants at least one element; `DefGateSequence::try_new` accepts none)
+const D: &str = "DEFGATE D AS MATRIX:\n    1, 0\n    0, 1\nDEFGATE E a AS SEQUENCE:\n    I a\n";
+const INV: &[&str] = &["A 0", "A(0.5) 0", "A 0 1", "A(0.5) 0 1", "B 1", "B(1.5) 1", "C 0", "DAGGER B 0", "B q", "H 0", "D 0", "MEASURE 0", "E 2"];
 
 #[derive(Debug, PartialEq, Eq, PartialOrd, Ord, Clone)]
 enum E {
@@ -192,7 +194,14 @@ enum Which {
 
 fn seq_check(which: Which, src: &str, mask: u32) -> (bool, Vec<(String, String)>) {
     let mut out = vec![];
-    let Ok(p) = Program::from_str(src) else { return (false, out) };
+    let Ok(mut p) = Program::from_str(src) else { return (false, out) };
+    if p.gate_definitions.contains_key("E") {
+        if let Ok(empty) = DefGateSequence::try_new(vec!["a".to_string()], vec![]) {
+            if let Ok(def) = GateDefinition::new("E".to_string(), vec![], GateSpecification::Sequence(empty)) {
+                p.gate_definitions.insert("E".to_string(), def);
+            }
+        }
+    }
     let filt = move |name: &str| match name {
         "A" => mask & 1 != 0,
         "B" => mask & 2 != 0,
@@ -362,7 +371,7 @@ pub static C20: PropDef = PropDef {
     id: "C20",
     level: "exploration",
     engine: "sweep",
-    rule: "programs = one of 7 definitions of sequence gate A x 4 of B x 3 of C (nesting, a self cycle, a cycle through C, parameter passing, an unused formal qubit, an inner call that permutes the formal qubits) + a matrix DEFGATE, x every body of 1-2 (thorough 3) invocations from a 12-item menu (right / wrong arity, wrong parameter count, modifier on a sequence gate, variable qubit, plain gates, MEASURE) x all 8 selection filters over {A,B,C}: result body / error class, kept definitions and untouched rest compared with the reference. non-trivial = case with at least one real expansion",
+    rule: "programs = one of 7 definitions of sequence gate A x 4 of B x 4 of C (nesting, a self cycle, a cycle through C, parameter passing, an unused formal qubit, an inner call that permutes the formal qubits) + a matrix DEFGATE + a sequence gate E with an EMPTY body (built through the API; always selected; also called from inside C), x every body of 1-2 (thorough 3) invocations from a 13-item menu (right / wrong arity, wrong parameter count, modifier on a sequence gate, variable qubit, plain gates, MEASURE) x all 8 selection filters over {A,B,C}: result body / error class, kept definitions and untouched rest compared with the reference. non-trivial = case with at least one real expansion",
     assumptions: ASSUME,
     run: |ctx| seq_run(ctx, "C20", Which::C20),
     replay: |c| seq_replay("C20", Which::C20, c),
